@@ -42,10 +42,14 @@ ASSUME = {
 }
 
 
+REPLAY_DIR = os.environ.get("PMSIM_REPLAY_DIR", os.path.join(VERIF, "replays"))
+EVIDENCE_DIR = os.environ.get("PMSIM_EVIDENCE_DIR", os.path.join(VERIF, "evidence"))
+
+
 def _write_replay(prop, v, sc_min, digest):
-    os.makedirs(os.path.join(VERIF, "replays"), exist_ok=True)
+    os.makedirs(REPLAY_DIR, exist_ok=True)
     name = "%s-%s-%d.json" % (prop, v["rig"], v["run_seed"])
-    path = os.path.join(VERIF, "replays", name)
+    path = os.path.join(REPLAY_DIR, name)
     doc = {"property": prop, "rig": v["rig"], "clause": v["clause"], "run_seed": v["run_seed"],
            "detail": v["detail"], "digest": digest, "code_rev": code_rev(), "scenario": sc_min}
     with open(path, "w") as f:
@@ -83,7 +87,7 @@ def run_check(prop, tier, seed, jobs, scale):
                 print("note: listed finding %s no longer reproduces on this tree" % f["id"])
         else:  # fixed: regression scenario, suppresses nothing
             if still:
-                path = os.path.join(VERIF, "replays", "%s-regression-%s.json" % (prop, f["id"]))
+                path = os.path.join(REPLAY_DIR, "%s-regression-%s.json" % (prop, f["id"]))
                 os.makedirs(os.path.dirname(path), exist_ok=True)
                 json.dump({"property": prop, "rig": sc["rig"], "clause": f["clause"], "run_seed": 0,
                            "detail": "regression of fixed finding " + f["id"], "scenario": sc,
@@ -172,8 +176,8 @@ def run_check(prop, tier, seed, jobs, scale):
     }
     ev = {"property_id": prop, "tier": tier, "seed": seed, "level": "exploration", "coverage": cov,
           "assumptions": ASSUME[prop], "wall_s": round(wall, 2), "violations": new_violations}
-    os.makedirs(os.path.join(VERIF, "evidence"), exist_ok=True)
-    with open(os.path.join(VERIF, "evidence", prop + ".json"), "w") as f:
+    os.makedirs(EVIDENCE_DIR, exist_ok=True)
+    with open(os.path.join(EVIDENCE_DIR, prop + ".json"), "w") as f:
         json.dump(ev, f, indent=1, sort_keys=True)
     print("%s: runs=%d evaluations=%d distinct_nontrivial=%d sim_s=%.0f wall=%.1fs violations=%d known=%d" % (
         prop, total_runs, evals, len(st.nt_sigs), sim_s, wall, new_violations, n_known_still))
